@@ -20,9 +20,11 @@ from vf import exprs as X
 
 _MARK = re.compile(r"\{([~+\-,*])([^}]*)\}")
 
-INTRINSICS_1 = ["sin", "cos", "abs", "sqrt", "exp", "int", "real", "nint", "tan", "log"]
-INTRINSICS_2 = ["mod", "atan2", "sign", "dim"]
-INTRINSICS_N = ["max", "min"]
+INTRINSICS_1 = ["sin", "cos", "abs", "sqrt", "exp", "int", "real", "nint", "tan", "log",
+                # legacy specific names (13.6.1): intrinsics under both standards
+                "dsqrt", "float", "iabs", "dabs", "alog", "dble", "sngl", "dcos", "cabs", "ifix"]
+INTRINSICS_2 = ["mod", "atan2", "sign", "dim", "amod", "isign", "datan2", "idim"]
+INTRINSICS_N = ["max", "min", "amax1", "min0", "dmax1"]
 F08_INTRINSICS = {"erf", "gamma", "shiftl", "shiftr", "shifta"}
 
 NUM_NAMES = ["x", "y", "z1", "aB1", "a1e3", "endx", "iff", "data1", "real_x", "do10i", "format_",
